@@ -181,23 +181,28 @@ func chainCaller(tag string, f func() int, rec bool) (res int) {
 
 def programs(tier):
     shp = shapes(tier)
+    # defers inside range-over-func bodies go into their own programs (rfNN): llgo emits invalid IR for them (known finding),
+    # which would otherwise take the whole program down on the clang back end
+    groups = {"defer": [s for s in shp if not any(p == "rf" for p, _ in s[0])], "rf": [s for s in shp if any(p == "rf" for p, _ in s[0])]}
     per = 700
     progs = {}
-    for pi in range(0, len(shp), per):
-        chunk = shp[pi:pi + per]
-        src = [PRELUDE.replace('import (\n\t"os"\n\t"unsafe"\n)', 'import (\n\t"os"\n\t"unsafe"\n)'), COMMON.replace('import "runtime"\n', ''), CHAIN, "var yes = true\nvar zero = 0\n"]
-        src[0] = src[0].replace('import (\n\t"os"\n\t"unsafe"\n)', 'import (\n\t"os"\n\t"runtime"\n\t"unsafe"\n)')
-        main = []
-        for i, (sites, term) in enumerate(chunk):
-            name = "f%d" % (pi + i)
-            src.append(gen_func(name, sites, term))
-            lab = label(sites, term)
-            main.append("\tcall(\"%s#%s\", %s)" % (name, lab, name))
-            if (pi + i) % 5 == 0:
-                main.append("\tcall(\"%s#chain-rec#%s\", func() int { return chainCaller(\"%s\", %s, true) })" % (name, lab, name, name))
-                main.append("\tcall(\"%s#chain#%s\", func() int { return chainCaller(\"%s\", %s, false) })" % (name, lab, name, name))
-        src.append("func main() {\n" + "\n".join(main) + "\n\trunAll(cases)\n}\n")
-        progs["defer%02d" % (pi // per)] = "\n".join(src)
+    n = 0
+    for gname, lst in groups.items():
+        for pi in range(0, len(lst), per):
+            chunk = lst[pi:pi + per]
+            src = [PRELUDE.replace('import (\n\t"os"\n\t"unsafe"\n)', 'import (\n\t"os"\n\t"runtime"\n\t"unsafe"\n)'), COMMON.replace('import "runtime"\n', ''), CHAIN, "var yes = true\nvar zero = 0\n"]
+            main = []
+            for i, (sites, term) in enumerate(chunk):
+                name = "f%d" % n
+                src.append(gen_func(name, sites, term))
+                lab = label(sites, term)
+                main.append("\tcall(\"%s\", %s)" % (lab, name))
+                if n % 5 == 0:
+                    main.append("\tcall(\"%s#chain-rec\", func() int { return chainCaller(\"%s\", %s, true) })" % (lab, name, name))
+                    main.append("\tcall(\"%s#chain\", func() int { return chainCaller(\"%s\", %s, false) })" % (lab, name, name))
+                n += 1
+            src.append("func main() {\n" + "\n".join(main) + "\n\trunAll(cases)\n}\n")
+            progs["%s%02d" % (gname, pi // per)] = "\n".join(src)
     return progs
 
 
